@@ -286,3 +286,52 @@ func H09_two() {
 		sv.Assert("every-operator-token-belongs-to-this-lexer's-table", known)
 	}
 }
+
+func repeatStr(s string, n int) string {
+	out := ""
+	for i := 0; i < n; i++ {
+		out += s
+	}
+	return out
+}
+
+// H09_long: a literal or identifier is one token whatever its length: forms
+// of 257, 300 and 1000 characters (beyond any look-ahead window a lexer might
+// keep), alone and between other tokens, under the built-in table.
+func H09_long() {
+	n := []int{257, 300, 1000}[sv.Choice("length", 3)]
+	var c litCase
+	switch sv.Choice("form", 7) {
+	case 0:
+		c = litCase{repeatStr("x", n), token.SYM}
+	case 1:
+		c = litCase{"晓" + repeatStr("y9", n/2), token.SYM}
+	case 2:
+		c = litCase{repeatStr("7", n), token.NUM}
+	case 3:
+		c = litCase{"1." + repeatStr("3", n) + "e5", token.NUM}
+	case 4:
+		c = litCase{"0x" + repeatStr("ab", n/2), token.NUM}
+	case 5:
+		c = litCase{"\"" + repeatStr("s ", n/2) + "\"", token.STR}
+	default:
+		c = litCase{"`" + repeatStr("r\"", n/2) + "`", token.STR}
+	}
+	ops := oper.BuiltIn()
+	ctx := sv.Choice("context", 2)
+	src, idx, want := c.src, 0, 1
+	if ctx == 1 {
+		src, idx, want = "a + "+c.src+" * "+c.src, 2, 5
+	}
+	var toks []*token.Token
+	cls := sv.Outcome(func() { toks = lexer.NewLexer(ops).Lex(src) })
+	sv.Assert("lexes", cls == "ok")
+	if cls != "ok" {
+		return
+	}
+	if len(toks) != want {
+		sv.Logf("a %d-character literal lexed into %d tokens", n, len(toks))
+	}
+	sv.Assert("one-token-per-literal", len(toks) == want && toks[idx].Lexeme == c.src && toks[idx].Kind == c.kind)
+	checkTokens(ops, src, toks)
+}
